@@ -5,7 +5,9 @@ Open Scope string_scope.
 Open Scope list_scope.
 Open Scope nat_scope.
 
-Inductive json := JNull | JBool (b : bool) | JInt (z : Z) | JFloat | JStr (s : string) | JArr (l : list json) | JObj (l : list (string * json)).
+(* JNum: a JSON number with a fractional part or exponent; it carries the binary32 bit pattern of `as_f64() as f32` (the only way
+   such numbers are used: the configured room factor / offset fields) *)
+Inductive json := JNull | JBool (b : bool) | JInt (z : Z) | JFloat | JNum (f32bits : Z) | JStr (s : string) | JArr (l : list json) | JObj (l : list (string * json)).
 
 (* byte-wise string order, as Rust's String / BTreeMap<String,_> *)
 Fixpoint str_ltb (a b : string) : bool :=
@@ -187,7 +189,11 @@ Definition adapt_course (c : rcourse) : rcourse :=
      rc_inv_instr := rc_inv_instr c; rc_inv_att := rc_inv_att c |}.
 
 (* what read() returns besides participants and courses (ImportAmbienceData and AssignmentQualityInfo) *)
-Record ramb := { ra_event : Z; ra_track : Z; ra_part : Z; ra_qual : option (nat * list nat); ra_ign_courses : nat; ra_ign_regs : nat }.
+Record ramb := { ra_event : Z; ra_track : Z; ra_part : Z; ra_qual : option (nat * list nat); ra_ign_courses : nat; ra_ign_regs : nat;
+                 ra_fields : list (option json * option json) }.   (* per course: the numeric values of the configured factor / offset fields *)
+Definition is_num (j : json) : bool := match j with JInt _ | JFloat | JNum _ => true | _ => false end.
+Definition num_field (fields : json) (name : option string) : option json :=
+  match name with Some n => match get n fields with Some v => if is_num v then Some v else None | None => None end | None => None end.
 Definition unchosen_penalty (td : json) : nat :=
   S (match get "num_choices" td with Some v => match as_u64 v with Some z => Z.to_nat z | None => 0 end | None => 0 end).
 
@@ -195,28 +201,31 @@ Definition unchosen_penalty (td : json) : nat :=
 Definition assigned_penalty (ci : nat) (choices : list (nat * nat)) (td : json) : nat :=
   match find (fun ch : nat * nat => Nat.eqb (fst ch) ci) choices with Some ch => snd ch | None => unchosen_penalty td end.
 
-Definition read_full (data : json) (track : option Z) (ign_c ign_a : bool) : result (list rpart * list rcourse * ramb) :=
+Definition read_fields (data : json) (track : option Z) (ign_c ign_a : bool) (ffield ofield : option string) : result (list rpart * list rcourse * ramb) :=
   let* _ := check_version data in
   let* _ts := ok_or (match get "timestamp" data with Some v => as_str v | None => None end) 9 in
   let* parts := ok_or (match get "event" data with Some ev => match as_object ev with Some _ => match get "parts" ev with Some p => as_object p | None => None end | None => None end | None => None end) 10 in
   let* (part_id, track_id, _td) := find_track parts track in
   let* cdata := ok_or (match get "courses" data with Some v => as_object v | None => None end) 11 in
   (* courses in key order; keep (sort_key, course) for offered ones, remember skipped ids *)
-  let fix goc (l : list (string * json)) : result (list (string * rcourse) * list Z) :=
+  let fix goc (l : list (string * json)) : result (list (string * (rcourse * (option json * option json))) * list Z) :=
     match l with
     | [] => ROk ([], [])
     | (k, c) :: t =>
         let* cid := ok_or (parse_u64 k) 12 in
         let* (name, st, mn, mx, key) := parse_course cid c track_id in
         let skip := match st with NotOffered => true | Cancelled => ign_c | TakesPlace => false end in
-        let* _ := (if skip then ROk tt else let* _ := ok_or (match get "fields" c with Some v => as_object v | None => None end) 13 in ROk tt) in
+        let* fo := (if skip then ROk (None, None) else
+                    let* _ := ok_or (match get "fields" c with Some v => as_object v | None => None end) 13 in
+                    match get "fields" c with Some fl => ROk (num_field fl ffield, num_field fl ofield) | None => ROk (None, None) end) in
         let* (cs, sk) := goc t in
         ROk (if skip then (cs, cid :: sk)
-             else ((key, {| rc_dbid := cid; rc_name := name; rc_min := mn; rc_max := mx; rc_instr := []; rc_fixed := false;
-                            rc_hidden := []; rc_inv_instr := 0; rc_inv_att := 0 |}) :: cs, sk))
+             else ((key, ({| rc_dbid := cid; rc_name := name; rc_min := mn; rc_max := mx; rc_instr := []; rc_fixed := false;
+                             rc_hidden := []; rc_inv_instr := 0; rc_inv_att := 0 |}, fo)) :: cs, sk))
     end in
   let* (keyed, skipped) := goc (obj_items cdata) in
-  let courses0 := map snd (sort_by fst keyed) in
+  let courses0 := map (fun x : string * (rcourse * (option json * option json)) => fst (snd x)) (sort_by fst keyed) in
+  let fields0 := map (fun x : string * (rcourse * (option json * option json)) => snd (snd x)) (sort_by fst keyed) in
   let cmap : list (Z * option nat) :=
     (map (fun cid => (cid, None)) skipped ++ map (fun '(i, c) => (rc_dbid c, Some i)) (combine (seq 0 (List.length courses0)) courses0))%list in
   let* rdata := ok_or (match get "registrations" data with Some v => as_object v | None => None end) 14 in
@@ -271,7 +280,10 @@ Definition read_full (data : json) (track : option Z) (ign_c ign_a : bool) : res
                (* the `?` inside then_some is evaluated eagerly in the Rust code *)
                let* _ := ok_or (match get "shortname" _td with Some v => as_str v | None => None end) 51 in ROk tt end) in
   ROk (ps, cs', {| ra_event := eid; ra_track := track_id; ra_part := part_id; ra_qual := if ign_a then Some q else None;
-                    ra_ign_courses := List.length skipped; ra_ign_regs := nign |}).
+                    ra_ign_courses := List.length skipped; ra_ign_regs := nign; ra_fields := fields0 |}).
+
+Definition read_full (data : json) (track : option Z) (ign_c ign_a : bool) : result (list rpart * list rcourse * ramb) :=
+  read_fields data track ign_c ign_a None None.
 
 Definition read (data : json) (track : option Z) (ign_c ign_a : bool) : result (list rpart * list rcourse) :=
   match read_full data track ign_c ign_a with ROk (ps, cs, _) => ROk (ps, cs) | RErr c => RErr c end.
